@@ -102,16 +102,40 @@ def flat_task(wid, seed, params):
         meta = []
         for e, op in enumerate(ops):
             for args in flat_operands(op, seed ^ e, params.get('nrandom', 200), params.get('full_pairs', True)):
+                exp = flat_expected(op, args)
+                if params.get('no_traps') and exp.startswith('T'):
+                    continue        # C11 speaks about non-trapping inputs only
                 lines.append('C 0 %d %s' % (e, ' '.join('%x' % a for a in args)))
-                expect.append(flat_expected(op, args))
+                expect.append(exp)
                 meta.append((op, args))
         rc, actual, err = b.run(lines, timeout=1200)
         res['evaluations'] = len(meta)
         if rc != 0:
-            res['violations'].append({
-                'signature': 'flat-crash:%s:%s' % (params['cc'], rc),
-                'summary': 'flat driver exited with %r: %s' % (rc, err.decode(errors='replace')[-500:]),
-                'replay': {'kind': 'flat', 'ops': ops, 'op': None, 'cc': params['cc'], 'rc': str(rc)}})
+            # the process died (sanitizer report, signal): run again unbuffered to find the evaluation it died in
+            rc2, actual2, err2 = b.run(lines, timeout=1200, unbuffered=True)
+            if rc2 != 0:
+                rc, actual, err = rc2, actual2, err2
+            k = max(len(actual) - 1, 0)
+            first = ''
+            for ln in err.decode(errors='replace').splitlines():
+                if 'runtime error' in ln or 'Sanitizer' in ln:
+                    first = normalize_diag(ln.strip())
+                    break
+            if rc != 0 and k < len(meta):
+                op, args = meta[k]
+                res['violations'].append({
+                    'signature': 'flat-crash:%s:%s:%s' % (op, rc, first[:80]),
+                    'summary': '%s(%s): driver exited with %r instead of printing %s [%s] %s' % (
+                        op, ', '.join('0x%x' % a for a in args), rc, expect[k + 1], params['cc'],
+                        first or err.decode(errors='replace')[-300:]),
+                    'replay': {'kind': 'flat', 'op': op, 'args': ['%x' % a for a in args], 'cc': params['cc'],
+                               'expected': expect[k + 1], 'actual': 'exit %r %s' % (rc, first)}})
+                meta = meta[:k]
+            elif rc != 0:
+                res['violations'].append({
+                    'signature': 'flat-crash:%s:%s' % (params['cc'], rc),
+                    'summary': 'flat driver exited with %r: %s' % (rc, err.decode(errors='replace')[-500:]),
+                    'replay': {'kind': 'flat', 'ops': ops, 'op': None, 'cc': params['cc'], 'rc': str(rc)}})
         nbad = 0
         for i, (op, args) in enumerate(meta):
             exp = expect[i + 1]
